@@ -206,6 +206,10 @@ def run_task(source, contracts, loops, qualname, natives=None, timeout_ms=10000,
                 starts.append((st, [env[p] for p in params], {}, env))
         res.variants = len(starts)
         for (st, args, kwargs, env) in starts:
+            if contract is not None:
+                for gname, gty in contract.ghost.items():
+                    env[gname] = make_symbolic(ex, st, gname, gty)[0][0]
+                ctx.ghost_env = {g: env[g] for g in contract.ghost}
             if contract is not None and contract.setup is not None:
                 contract.setup(ex, st, env)
             if contract is not None:
